@@ -102,11 +102,11 @@ def xc_bool_eq_int(p, a):
     return p == a
 
 
-def xc_range_len(a, b):
+def xc_range_len_small(a, b):
     return len(range(a, b))
 
 
-def xc_range_in(a, b):
+def xc_range_in_small(a, b):
     return a in range(b)
 
 
@@ -216,11 +216,11 @@ def xc_len_truth(a):
     return 0
 
 
-def xc_comp(a, b):
+def xc_comp_small(a, b):
     return [i for i in range(a) if i < b] == [i for i in range(min(a, b))] if a >= 0 and b >= 0 else None
 
 
-def xc_comp_len(a):
+def xc_comp_len_small(a):
     return len([i for i in range(a)])
 
 
